@@ -144,7 +144,8 @@ pub fn eval(it: &Item) -> (usize, String) {
         },
         Item::WriteI { ty, value } => {
             let s = int_dispatch!(*ty, T, {
-                let mut buf = [0u8; 64];
+                // exactly the documented size for decimal output: a build that needs more panics here
+                let mut buf = vec![0u8; <T as lexical_core::FormattedSize>::FORMATTED_SIZE_DECIMAL];
                 match guard(|| lexical_core::write::<T>(<T as IntT>::from_u128(*value), &mut buf).to_vec()) {
                     Ok(b) => hex(&b),
                     Err(p) => format!("PANIC {p}"),
@@ -153,7 +154,7 @@ pub fn eval(it: &Item) -> (usize, String) {
             (1, s)
         },
         Item::WriteF { ty, bits } => {
-            let mut buf = [0u8; 128];
+            let mut buf = vec![0u8; if *ty == 0 { <f32 as lexical_core::FormattedSize>::FORMATTED_SIZE_DECIMAL } else { <f64 as lexical_core::FormattedSize>::FORMATTED_SIZE_DECIMAL }];
             let r = if *ty == 0 { guard(|| lexical_core::write(f32::from_bits(*bits as u32), &mut buf).to_vec()) } else { guard(|| lexical_core::write(f64::from_bits(*bits), &mut buf).to_vec()) };
             match r {
                 Ok(b) => (2, hex(&b)),
